@@ -80,9 +80,13 @@ CLAIMS = {
              "and of ArgumentContainer::findArg (per-iteration must-pass-through of == and mismatch(), positive "
              "comparison ends in throw, store unreachable without the loop, exact match wins regardless of order, "
              "prefix match only with abbreviations enabled, ambiguity throws) plus exhaustive truth tables of "
-             "ArgumentKey::operator== / mismatch() over all combinations of empty/equal/different short and long keys.",
-        note="trusts clang AST/CFG; parsing of key specification strings is not decided",
-        also=("engine B (boolshape.py)",),
+             "ArgumentKey::operator== / mismatch() over all combinations of empty/equal/different short and long keys; "
+             "ArgumentKey::startsWith() is proved to be exactly the non-empty-prefix predicate for all key texts from "
+             "the meaning of the std::string operation its result is based on (compare of the whole other word "
+             "against the first n characters / find(...) == 0 / rfind( ..., 0) == 0; observation facts of Engine C).",
+        note="trusts clang AST/CFG and the documented meaning of std::string::compare/find/rfind; parsing of key "
+             "specification strings is not decided",
+        also=("engine B (boolshape.py)", "engine C (lin.py, bounds.py)"),
         technique="static analysis: CFG path rules + exhaustive truth table of the key algebra"),
     "C06": dict(
         level="other", engine="engine A (cfg.py)",
